@@ -128,6 +128,11 @@ def path_to(parent, nid):
 
 
 def report(ctx, res, path, model, extra=None):
+    for i in res.get("info", []):
+        lat = ctx.cov.setdefault("latent", {"count": 0, "samples": []})
+        lat["count"] += 1
+        if len(lat["samples"]) < 3:
+            lat["samples"].append({"after": path, "what": i})
     for (site, clause, q, cause, detail) in res["viol"]:
         sig = f"{site}|{clause}|{q}|{cause}"
         ctx.violation(sig, f"{detail}; after {path} (step by {res['who']}, opts {res['opts']})",
@@ -187,7 +192,7 @@ def replay_graph(ctx, cfgname, budget, label):
                     ctx.count()
                     labs, nodes = path_to(parent, res["src"])
                     path = labs + [res["lab"].replace('\\"', '"')]
-                    if res["viol"] or res["shape"]:
+                    if res["viol"] or res["shape"] or res.get("info"):
                         report(ctx, res, path, models[res["dst"]],
                                {"models": [models[x] for x in nodes] + [models[res["dst"]]]})
                     a = res["lab"].split("(")[0]
@@ -342,7 +347,7 @@ def walks(ctx, num, depth, ncommits):
             for i, r in enumerate(out):
                 nsteps += 1
                 ctx.count()
-                if r["viol"] or r["shape"]:
+                if r["viol"] or r["shape"] or r.get("info"):
                     report(ctx, r, labels[:i + 1], models[i + 1], {"models": models[:i + 2], "seed": ctx.seed + k})
                 if r.get("real") is not None and r.get("ans_n") is not None:
                     act, args = RP.parse_label(labels[i])
@@ -385,7 +390,8 @@ def run(ctx):
                          coverage=not ctx.quick)
     futs = defect_runs(ctx, pool)
     t0 = os.times()
-    records = replay_graph(ctx, ctx.pick("Accel_mc.cfg", "Accel_mc5.cfg"), ctx.pick(6000, 150000), ctx.pick("depth 4", "depth 5"))
+    budget = int(os.environ.get("C14_BUDGET", ctx.pick(5000, 150000)))       # (C14_BUDGET: debugging aid)
+    records = replay_graph(ctx, ctx.pick("Accel_mc.cfg", "Accel_mc5.cfg"), budget, ctx.pick("depth 4", "depth 5"))
     defect_replays(ctx, futs)
     wtraces, wmeta = walks(ctx, ctx.pick(40, 1500), ctx.pick(12, 16), ctx.pick(5, 6))
     t1 = os.times()
